@@ -47,6 +47,13 @@ SPECIAL_COVERS = {  # the shapes input_from_blif special-cases (n inputs -> rows
     1: [[('1', '1')], [('0', '1')]],
     2: [[('11', '1')], [('1-', '1'), ('-1', '1')], [('0-', '1'), ('-0', '1')],
         [('10', '1'), ('01', '1')]],
+    # two-row multiplexer covers as logic synthesis tools write them (Yosys, ABC), with the
+    # select in each column and the rows in either order
+    3: [[('1-0', '1'), ('-11', '1')], [('-11', '1'), ('1-0', '1')],
+        [('01-', '1'), ('1-1', '1')], [('1-1', '1'), ('01-', '1')],
+        [('0-1', '1'), ('11-', '1')], [('-01', '1'), ('1-0', '1')],
+        [('-10', '1'), ('1-1', '1')], [('10-', '1'), ('0-1', '1')],
+        [('11-', '1'), ('0-1', '1')], [('1-1', '1'), ('-10', '1')]],
 }
 
 COMPONENTS = {'real': ['input_from_blif (pyparsing grammar, extract_cover/latch/flop/'
@@ -122,6 +129,20 @@ def gen_model(rng, name, depth, lib, top):
                 avail.append(o)
             rng.shuffle(pins)
             m['cmds'].append({'k': 'subckt', 'model': sub['name'], 'pins': pins})
+            data_in = [f for f in sub['inputs'] if f != 'clk']
+            if len(data_in) >= 2 and rng.random() < 0.35:
+                # a second instance of the same model on the same nets, bound to its formals
+                # the other way round
+                act = dict(pins)
+                rot = data_in[1:] + data_in[:1]
+                pins2 = [('clk', 'clk')] if sub['uses_clock'] else []
+                pins2 += [(f, act[g]) for f, g in zip(data_in, rot)]
+                for f in sub['outputs']:
+                    o = fresh('s')
+                    pins2.append((f, o))
+                    driven.append(o)
+                    avail.append(o)
+                m['cmds'].append({'k': 'subckt', 'model': sub['name'], 'pins': pins2})
             continue
         out = fresh()
         nin = rng.choice([0, 1, 1, 2, 2, 2, 3, 4, 5, 6]) if r > 0.25 else rng.choice([1, 2])
